@@ -19,14 +19,14 @@ Rec == ndJsonDeserialize(IOEnv.TRACE)
 KnownS3 == IOEnv.KNOWN_S3 = "1"
 K == 4
 
-VARIABLES l, run, clean, nfr, got, tx, hoff, maxAck, viol, known
-tvars == <<l, run, clean, nfr, got, tx, hoff, maxAck, viol, known>>
+VARIABLES l, run, clean, nfr, got, gotNow, tx, hoff, maxAck, viol, known
+tvars == <<l, run, clean, nfr, got, gotNow, tx, hoff, maxAck, viol, known>>
 
 ToSet(s) == {s[i] : i \in DOMAIN s}
 LMin(S) == CHOOSE x \in S : \A y \in S : x <= y
 
 \* tx: <<sn, fragment>> -> how often the writer put that fragment on the wire
-TraceInit == l = 1 /\ run = 0 /\ clean = 0 /\ nfr = <<>> /\ got = <<>> /\ tx = <<>> /\ hoff = 0 /\ maxAck = 0 /\ viol = {} /\ known = {}
+TraceInit == l = 1 /\ run = 0 /\ clean = 0 /\ nfr = <<>> /\ got = <<>> /\ gotNow = <<>> /\ tx = <<>> /\ hoff = 0 /\ maxAck = 0 /\ viol = {} /\ known = {}
 
 Put(f, k, v) == [x \in DOMAIN f \cup {k} |-> IF x = k THEN v ELSE f[x]]
 
@@ -44,13 +44,13 @@ Round(e) ==
                /\ "rw:NACKFRAG" \in traffic                                    \* the reader keeps asking for fragments
                /\ e.unsent = <<>>                                              \* the writer has nothing scheduled
                \* and a fragment of it really never reached the reader (otherwise it is not this finding) ...
-               /\ ~((1..nfr[lo]) \subseteq (IF lo \in DOMAIN got THEN got[lo] ELSE {}))
+               /\ ~((1..nfr[lo]) \subseteq (IF lo \in DOMAIN gotNow THEN gotNow[lo] ELSE {}))
                \* ... although the writer did repeat every such fragment at least once: the finding is that the repair is
                \* not repeated, a writer that never repairs at all is something else
                \* (or the sample had been acknowledged during an earlier match of the reader side, so the writer rightly
                \* has nothing scheduled for it and only the NACKFRAG could bring it back)
                /\ \/ \A f \in 1..nfr[lo] :
-                       f \notin (IF lo \in DOMAIN got THEN got[lo] ELSE {}) => (<<lo, f>> \in DOMAIN tx /\ tx[<<lo, f>>] >= 2)
+                       f \notin (IF lo \in DOMAIN gotNow THEN gotNow[lo] ELSE {}) => (<<lo, f>> \in DOMAIN tx /\ tx[<<lo, f>>] >= 2)
                   \/ lo < maxAck
       stuck == c2 >= K /\ ~converged
       vConv == IF stuck /\ ~(KnownS3 /\ s3sig) THEN {"C02_not_converged_after_K_fault_free_rounds"} ELSE {}
@@ -64,7 +64,7 @@ Round(e) ==
       \* (e.acked >= sn: the reader has acknowledged everything below it, so it knows the fate of every lower number -
       \* a late joiner that has not yet been told that the earlier numbers are not for it rightly holds the sample back)
       vAsm == IF missing # {} /\ (LET sn == LMin(missing) IN
-                    sn \in DOMAIN nfr /\ nfr[sn] > 0 /\ sn \in DOMAIN got /\ (1..nfr[sn]) \subseteq got[sn] /\ e.acked >= sn)
+                    sn \in DOMAIN nfr /\ nfr[sn] > 0 /\ sn \in DOMAIN gotNow /\ (1..nfr[sn]) \subseteq gotNow[sn] /\ e.acked >= sn /\ e.faults = 0)   \* (fault-free round: e.acked is current)
                 THEN {"C05_complete_fragment_set_not_assembled"} ELSE {}
       vInc == IF \E i \in DOMAIN handed : handed[i] \in DOMAIN nfr /\ nfr[handed[i]] > 0 /\
                     ~((1..nfr[handed[i]]) \subseteq (IF handed[i] \in DOMAIN got THEN got[handed[i]] ELSE {}))
@@ -73,20 +73,22 @@ Round(e) ==
      /\ viol' = viol \cup vConv \cup vQuiet \cup vBytes \cup vTwice \cup vInc \cup vAsm
      /\ known' = known \cup kConv
      /\ maxAck' = IF e.acked > maxAck THEN e.acked ELSE maxAck
-     /\ UNCHANGED <<run, nfr, got, tx, hoff>>
+     /\ UNCHANGED <<run, nfr, got, gotNow, tx, hoff>>
 
 Step ==
   /\ l <= Len(Rec)
   /\ l' = l + 1
   /\ LET e == Rec[l] IN
-     CASE e.ev = "Reset" -> run' = e.run /\ clean' = 0 /\ nfr' = <<>> /\ got' = <<>> /\ tx' = <<>> /\ hoff' = 0 /\ maxAck' = 0 /\ viol' = {} /\ known' = {}
-       [] e.ev = "Write" -> nfr' = Put(nfr, e.sn, e.nfrags) /\ clean' = 0 /\ UNCHANGED <<run, got, tx, hoff, maxAck, viol, known>>
-       [] e.ev = "Clean" -> clean' = 0 /\ UNCHANGED <<run, nfr, got, tx, hoff, maxAck, viol, known>>
-       \* the reader side re-matches the writer: convergence is owed again, fragments arrive afresh
-       [] e.ev = "Rematch" -> clean' = 0 /\ hoff' = e.handed /\ got' = <<>> /\ UNCHANGED <<run, nfr, tx, maxAck, viol, known>>
+     CASE e.ev = "Reset" -> run' = e.run /\ clean' = 0 /\ nfr' = <<>> /\ got' = <<>> /\ gotNow' = <<>> /\ tx' = <<>> /\ hoff' = 0 /\ maxAck' = 0 /\ viol' = {} /\ known' = {}
+       [] e.ev = "Write" -> nfr' = Put(nfr, e.sn, e.nfrags) /\ clean' = 0 /\ UNCHANGED <<run, got, gotNow, tx, hoff, maxAck, viol, known>>
+       [] e.ev = "Clean" -> clean' = 0 /\ UNCHANGED <<run, nfr, got, gotNow, tx, hoff, maxAck, viol, known>>
+       \* the reader side re-matches the writer: convergence is owed again; gotNow = fragments that arrived during this match
+       [] e.ev = "Rematch" -> clean' = 0 /\ hoff' = e.handed /\ gotNow' = <<>> /\ UNCHANGED <<run, nfr, got, tx, maxAck, viol, known>>
        [] e.ev = "Dgram" ->
             /\ got' = IF e.k = "FRAG" /\ e.fate # "drop"
                         THEN Put(got, e.sn, (IF e.sn \in DOMAIN got THEN got[e.sn] ELSE {}) \cup {e.f}) ELSE got
+            /\ gotNow' = IF e.k = "FRAG" /\ e.fate # "drop"
+                        THEN Put(gotNow, e.sn, (IF e.sn \in DOMAIN gotNow THEN gotNow[e.sn] ELSE {}) \cup {e.f}) ELSE gotNow
             /\ tx' = IF e.k = "FRAG" /\ e.dir = "wr"
                        THEN Put(tx, <<e.sn, e.f>>, (IF <<e.sn, e.f>> \in DOMAIN tx THEN tx[<<e.sn, e.f>>] ELSE 0) + 1) ELSE tx
             \* geometry of every DATAFRAG the real writer emitted (Fragmentation.tla)
